@@ -39,7 +39,7 @@ Inductive c14case :=
 Definition mk_opts (opts : list (string * string)) : option (list opt) :=
   fold_right (fun fp acc =>
     match acc, index_of_ext (fst fp) with
-    | Some l, Some i => Some (mkOpt i (bytes_of_string (snd fp)) :: l)
+    | Some l, Some i => Some (mkOpt 0 i (bytes_of_string (fst fp)) (bytes_of_string (snd fp)) :: l)
     | _, _ => None
     end) (Some []) opts.
 
